@@ -260,6 +260,10 @@ def run(ctx):
     # component order is preserved end to end (formatter, templates, parsers, fold, accessors)
     import maps as _maps
     _maps.rule_O_ORDER(ctx)
+    # "equal values render identically": equality of truth / budget / stamp / sentence / task must be the derived structural one (bitwise on
+    # the numbers the renderer prints with Display); a tolerant PartialEq makes 0.1+0.2 == 0.3 while the texts differ (seed c16-f)
+    import eqhash as _eq
+    _eq.rule_derived_eq(ctx)
     ctx.undecided = ["injectivity of rendering over all pairs of values (only per-role/per-category distinctness and the layout rule are decided)",
                      "rendering equality up to the order of unordered components (depends on set iteration order)"]
     ctx.assumptions = ["ToDebug on the atom name yields a quoted, escaped string", "terms are finite trees (the formatter recurses on components)"]
